@@ -20,7 +20,7 @@ PROPS = {
                      'operands restricted to <= 90 segments so that the O(n^2) exact oracle stays cheap'],
      'min_nontrivial': {'quick': 1000, 'thorough': 10000}},
     'C02': {'required_probes': ['coordpos.ring.on_boundary_shortcircuit', 'relate.label_isolated_node'],
-     'budget': {'quick': 4000, 'thorough': 80000},
+     'budget': {'quick': 10000, 'thorough': 100000},
      'rule': 'same generator as C01; intersects / contains / is_within through the Geometry enum and through every concrete (Self,Rhs) impl, in both operand '
              "orders, judged against the documented masks applied to the ORACLE's matrix; coordinate_position / intersects(Coord|Point) / contains(Coord|Point) / "
              'is_within judged against the exact location of query coordinates drawn from vertices, lattice points on edges, neighbours. Non-trivial = operands '
@@ -131,9 +131,10 @@ PROPS = {
                      'multiplies member centroids by their weights at absolute coordinates; the E term is local - see REPORT.md (b)',
                      'the pinned tree violates the property for 2-d Triangles with coordinates above ~9.5e7 (Triangle::unsigned_area is evaluated without a '
                      "shift): those violations are labelled with the class 'triangle_area_no_shift' and keep firing - see REPORT.md (c) D1"],
-     'min_nontrivial': {'quick': 2000000, 'thorough': 20000000}},
+     'min_nontrivial': {'quick': 2000000, 'thorough': 20000000},
+     'required_probes': ['centroid.dimension_replace', 'centroid.zero_area_fallback']},
     'C07': {'required_probes': ['distance.containment_branch', 'distance.nearest_neighbour'],
-     'budget': {'quick': 6000, 'thorough': 120000},
+     'budget': {'quick': 20000, 'thorough': 150000},
      'rule': 'same pair generator as C01 (all type pairs, partner derived from the first operand half of the time, lattice offsets/scales); Euclidean.distance '
              'through the Geometry enum, through every concrete (A,B) impl, through the legacy EuclideanDistance trait, in both operand orders and for every '
              'respelling of either operand, judged against sqrt of the exact rational minimum squared distance over all primitive pairs (0 iff the exact models '
@@ -204,7 +205,8 @@ PROPS = {
                      'a watchdog thread aborts the shard when one case runs > 30 s or RSS > 3 GB (a broken heap loop in VW does not terminate); the driver then '
                      'reports the shard as crashed'],
      'min_nontrivial': {'quick': 100000, 'thorough': 1000000},
-     'legs': {'thorough': [{'kind': 'asan', 'budget': 2000, 'shards': 4}]}},
+     'legs': {'thorough': [{'kind': 'asan', 'budget': 2000, 'shards': 4}]},
+     'required_probes': ['rdp.min_size_guard', 'vw.stale_heap_entry']},
     'C10': {'required_probes': ['monotone.mono_poly.vertical_stretch', 'stitch.parent_lookup'],
      'budget': {'quick': 3000, 'thorough': 60000},
      'rule': 'valid lattice polygons / multipolygons (0-3 holes incl. holes touching the shell or one another at a point, reflex and collinear vertices, vertical '
@@ -257,7 +259,8 @@ PROPS = {
                      'that is a bit copy of an input end point)'],
      'min_nontrivial': {'quick': 20000000, 'thorough': 40000000},
      'technique': 'runtime monitoring: exact integer oracle (i128 / arbitrary precision) over observed results of line_intersection and Line::intersects, '
-                  'exhaustive small-lattice sub-space, both argument orders'},
+                  'exhaustive small-lattice sub-space, both argument orders',
+     'required_probes': ['line_intersection.collinear', 'line_intersection.nearest_endpoint_fallback']},
     'C12': {'required_probes': ['interior_point.y_perturbed'],
      'budget': {'quick': 25000, 'thorough': 600000},
      'rule': 'per case one generated geometry of any type (half of them polygons with holes / tangent holes / multipolygons, 1 in 10 a sliver of height 1 and '
@@ -328,7 +331,7 @@ PROPS = {
                             'args': ['run', 'C15', '--seed', '{seed}', '--shard', '0', '--nshards', '1', '--tier', 'quick', '--budget', '150', '--out', '{out}'],
                             'timeout': 5400}]}},
     'C17': {'required_probes': ['prepared.clone_for_arg_index.swap'],
-     'budget': {'quick': 1500, 'thorough': 40000},
+     'budget': {'quick': 4000, 'thorough': 40000},
      'rule': 'one case = one recorded history: a PreparedGeometry (owned, from the Geometry enum) reused for 10-60 (thorough: up to 300) relate calls against a '
              'pool of 2-8 partners derived from it (plus itself), operand position random, partner given as plain enum / plain concrete type / freshly prepared '
              '(owned, borrowed, from the concrete type), clone() of the prepared geometry interleaved; every response is compared with the sequential model (plain '
@@ -416,7 +419,7 @@ PROPS = {
                            {'kind': 'miri',
                             'args': ['run', 'C19', '--seed', '{seed}', '--shard', '0', '--nshards', '1', '--tier', 'quick', '--budget', '30', '--out', '{out}'],
                             'timeout': 5400}]}},
-    'C20': {'budget': {'quick': 1500, 'thorough': 20000},
+    'C20': {'budget': {'quick': 4000, 'thorough': 20000},
      'shards': 8,
      'rule': 'a fixed, seeded list of ~200 (quick) / ~215 (thorough) calls - BooleanOps x4, relate and unary_union on coincidence-rich lattice polygon pairs, '
              'unary_union / stitch_triangulation / constrained triangulation / par_iter().map().collect() over 12-15 member collections (disjoint, edge-sharing, '
@@ -430,7 +433,7 @@ PROPS = {
      'assumptions': ["'all interleavings' is not enumerable: the claim is no difference over the processes x thread counts x Miri schedules actually run, and zero "
                      'race / uninitialised-read reports on them'],
      'min_nontrivial': {'quick': 100, 'thorough': 200},
-     'legs': {'quick': [{'kind': 'procmatrix', 'seeds': 2, 'scale': 2}],
+     'legs': {'quick': [{'kind': 'procmatrix', 'seeds': 4, 'scale': 2}],
               'thorough': [{'kind': 'procmatrix', 'seeds': 8, 'scale': 2},
                            {'kind': 'tsan', 'scale': 2, 'threads': [16, 3]},
                            {'kind': 'memcheck', 'args': ['digest-run', '--scale', '1'], 'threads': 3},
